@@ -12,5 +12,5 @@ def obligations(tier):
                         stubs=["events_mkrec/freerec -> tracked pool", "poll -> model (revents within events|ERR|HUP, EINTR)", "selectstats, atexit, warnp -> no-ops"]))
     return obs
 TRUSTED = ["CBMC 6.11 C semantics", "cadical", "the representation invariant INV in harness/C04/net.c (reachability of INV from the empty state is argued in DESIGN.md: init establishes it, every step preserves it)"]
-ASSUMPTIONS = ["immediate and timer events, and the dispatcher (events.c), are not covered by obligations yet: the claim is the socket-readiness part of C04"]
+ASSUMPTIONS = ["this check decides the socket-readiness part of C04; immediate events (events_immediate.c), the timer source (events_timer.c) and the dispatcher (events.c) are decided by C05's obligations, the timer heap by C13"]
 EXPLANATION = ""
